@@ -397,6 +397,49 @@ def check(ctx):
     ctx.oblige("R-C07.5", "a pointer modifier prefixes '*'", ok)
     if not ok:
         viol("R-C07.5", "ptr-prefix", "the PtrDecl case must prefix the declarator with '*'", "CGenerator._generate_type", gt)
+    seen78 = set()
+    from . import wiring_common as WCm8
+    # ---- R-C07.8: GNU statement expressions keep their parentheses ---------------------------------------------------------
+    # The parser accepts `({ ... })` where an assignment-expression starts and stores the bare Compound as the expression node.  The parentheses
+    # are part of the construct: a field that can receive such a Compound must be printed through _visit_expr (which restores them), not through a
+    # plain self.visit - the parentheses of `if (...)`, `while (...)` or `[...]` around the field do not help, `if ({ 1; })` is not an expression.
+    ctx.rule("R-C07.8", "a field that can hold a GNU statement expression (a Compound stored by an expression production) is printed through _visit_expr / a _parenthesize helper, which restores its parentheses")
+    from .. import wirecheck as WC8
+    cur8 = WC8.current()
+    # expression productions that can return a bare Compound: those with a Compound constructor record or a return that forwards such a production
+    compound_prods = set()
+    changed8 = True
+    while changed8:
+        changed8 = False
+        for m_, info in cur8.items():
+            if m_ in compound_prods or not (m_ in WCm8.EXPR or m_ in ("_parse_initializer", "_parse_expression_opt")) or m_ == "_parse_primary_expression":
+                continue      # (through a parenthesised primary every operand slot could hold one - `-(({ 1; }))`; the rule is about the slots that take it directly)
+            direct = any(r.startswith("_parse_compound_statement#") for r in info["returns"])
+            fwd = any(r.split("#")[0] in compound_prods for r in info["returns"])
+            if direct or fwd:
+                compound_prods.add(m_)
+                changed8 = True
+    n78 = 0
+    for m_, info in sorted(cur8.items()):
+        for lab, fa in info["records"]:
+            cls = lab.split(">")[-1]
+            if lab.startswith(("call:", "fn:")) or ("visit_" + cls) not in g.methods:
+                continue
+            em = g.field_emissions(cls) or {}
+            for f_, vals in fa.items():
+                srcs = sorted({v.split("#")[0] for v in vals if v.split("#")[0] in compound_prods and "." not in v and "[" not in v})
+                if not srcs or f_ not in em:
+                    continue
+                plain = [x for x in em[f_] if isinstance(x[1].func, ast.Attribute) and x[1].func.attr == "visit"]
+                n78 += 1
+                ok = not plain
+                ctx.oblige("R-C07.8", f"{cls}.{f_} (from {srcs[0]}) is printed through _visit_expr", ok, sample={"rule": "R-C07.8", "field": f"{cls}.{f_}", "parser sources that can yield a Compound": srcs, "emission": [x[0] for x in em[f_]]})
+                if not ok and f"{cls}.{f_}" not in seen78:
+                    seen78.add(f"{cls}.{f_}")
+                    viol("R-C07.8", f"stmt-expr-bare:{cls}.{f_}", f"visit_{cls} prints {cls}.{f_} with a plain self.visit, but the parser can store a GNU statement expression there ({m_} fills it from {srcs[0]}, which returns the bare Compound of `({{ ... }})`): "
+                         f"the parentheses are lost and the generated text does not parse again", f"CGenerator.visit_{cls}", plain[0][1])
+    if n78 < 8:
+        raise AnalysisError(f"only {n78} fields fed by a statement-expression capable production found (confirmed by reading: > 20)")
     # ---- R-C07.7 ------------------------------------------------------------------------
     n77 = 0
     for fname, fn in sorted(gm.methods("CGenerator").items()):
